@@ -900,6 +900,32 @@ def kind(v):
             return 'other'
 def f():
     return [kind(v) for v in (3, True, Pt(0, 5), Pt(1, 2), Seg(1, 2), [1], 'x', None)]
+---
+class Cal:
+    DAYS = [31, 28, 31]
+    BASE = 1970
+    __secret = [0]
+    def __init__(self, y):
+        self.y = y
+    def feb(self):
+        return Cal.DAYS[1]
+    def bump(self):
+        Cal.DAYS[1] = 29
+        Cal.__secret[0] += 1
+        return self.DAYS
+    def secret(self):
+        return self.__secret[0]
+    @classmethod
+    def rebase(cls, b):
+        cls.BASE = b
+def f():
+    a, b = Cal(1), Cal(2)
+    before = a.feb()
+    a.bump()
+    seen = (b.feb(), b.DAYS is Cal.DAYS, b.secret())
+    Cal.rebase(2000)
+    b.BASE = 5
+    return before, seen, a.BASE, b.BASE, Cal.BASE, Cal(3).BASE
 '''
 
 
